@@ -342,13 +342,16 @@ class Waiting(State):
         self._waiting_future.set_exception(reason)
 
     async def execute(self) -> State:  # type: ignore
+        waiting_future = self._waiting_future
         try:
-            result = await self._waiting_future
+            result = await waiting_future
         except Interruption:
             # Deal with the interruption (by raising) but make sure our internal
             # state is back to how it was before the interruption so that we can be
-            # re-executed
-            self._waiting_future = futures.Future()
+            # re-executed. If a wake-up arrived after the interruption was delivered, the
+            # future has already been replaced by one that holds the wake-up.
+            if self._waiting_future is waiting_future:
+                self._waiting_future = futures.Future()
             raise
 
         if result == NULL:
@@ -361,10 +364,21 @@ class Waiting(State):
     def resume(self, value: Any = NULL) -> None:
         assert self._waiting_future is not None, 'Not yet waiting'
 
+        self._rearm_if_interrupted()
         if self._waiting_future.done():
             return
 
         self._waiting_future.set_result(value)
+
+    def _rearm_if_interrupted(self) -> None:
+        """If the waiting future holds an interruption that ``execute`` has not dealt with yet, replace it.
+
+        A wake-up that arrives in between would otherwise be dropped: ``execute`` re-arms the wait with a fresh
+        future once it handles the interruption, and nobody would ever resolve that one.
+        """
+        future = self._waiting_future
+        if future.done() and not future.cancelled() and isinstance(future.exception(), Interruption):
+            self._waiting_future = futures.Future()
 
 
 class Excepted(State):
